@@ -85,6 +85,24 @@ class Check(Property):
                 b = P.compound(rng, P.mult, frac_prob=0.1)
                 kind = "random compound"
             out.append(mk(kind, a, b))
+        # dimension expressions (derived dimension names) as accepted by Quantity.check / ureg.check
+        dim_names = [d["name"] for d in P.proj.dims] + list({k for u_ in P.proj.units if u_["is_base"] for k in u_["ref"]})
+        dim_names = [d for d in dim_names if d != "[]"]
+        for i in range(400 if self.tier == "quick" else 3000):
+            n = rng.randint(1, 3)
+            de = {}
+            for _ in range(n):
+                de[rng.choice(dim_names)] = Fraction(rng.choice([-2, -1, 1, 1, 2]))
+            # a unit container to check against it: half of the time one that has exactly this dimensionality
+            target = P.proj.dim_of_dims(de)
+            cands = [d_ for d_ in P.by_dim if dict(d_) == target]
+            if i % 2 == 0 and cands:
+                un = {rng.choice(P.by_dim[cands[0]]): Fraction(1)}
+            else:
+                un = P.compound(rng, P.mult, nmax=2)
+            self.bump("dimension expression")
+            out.append({"kind": "dimexpr", "src": uc_list(un), "dst": uc_list(de), "x": "1/1",
+                        "ops": [{"op": "dim", "u": uc_list(un)}, {"op": "dim", "u": uc_list(de)}]})
         if self.tier == "thorough":
             names = P.mult
             for a in names:
@@ -96,6 +114,10 @@ class Check(Property):
     def impl(self, c):
         u = regs.ureg("fraction")
         s, d = pint_uc(u, c["src"]), pint_uc(u, c["dst"])
+        if c["kind"] == "dimexpr":
+            def dim_(uc):
+                return sorted(uc_list({k: regs.to_frac(v) for k, v in u.get_dimensionality(uc).items()}))
+            return [capture(lambda: dim_(s)), capture(lambda: dim_(d))]
 
         def dim(uc):
             return sorted(uc_list({k: regs.to_frac(v) for k, v in u.get_dimensionality(uc).items()}))
@@ -127,7 +149,40 @@ class Check(Property):
         return None
 
     # ------------------------------------------------------------------ oracle
+    def oracle_dimexpr(self, c):
+        P = regs.pools()
+        proj = P.proj
+        v = []
+        un, de = uc_dict(c["src"]), uc_dict(c["dst"])
+        want = proj.dimensionality(un) == proj.dim_of_dims(de)
+        es = " * ".join(f"{k}**({e.numerator})" for k, e in de.items())
+        tag = f"C01 {c['src']} check {es!r}"
+        for tname in ("fraction", "float"):
+            u = regs.ureg(tname)
+            try:
+                q = u.Quantity(1, u.Unit(pint_uc(u, c["src"], tname, canonical=True)))
+                got = q.check(es)
+                if got is not want:
+                    v.append(f"{tag} [{tname}]: Quantity.check gives {got} but the dimensionalities are "
+                             f"{'equal' if want else 'different'}")
+                try:
+                    u.check(es)(lambda a: a)(q)
+                    dec = True
+                except Exception as exc:  # noqa: BLE001
+                    dec = False if type(exc).__name__ == "DimensionalityError" else repr(exc)
+                if dec is not want:
+                    v.append(f"{tag} [{tname}]: ureg.check decorator gives {dec!r} but the dimensionalities are "
+                             f"{'equal' if want else 'different'}")
+                gd = {k: regs.to_frac(x) for k, x in u.get_dimensionality(es).items()}
+                if gd != proj.dim_of_dims(de):
+                    v.append(f"{tag} [{tname}]: get_dimensionality({es!r}) = {gd}, expected {proj.dim_of_dims(de)}")
+            except Exception as exc:  # noqa: BLE001
+                v.append(f"{tag} [{tname}]: raised {type(exc).__name__}: {exc}")
+        return v
+
     def oracle(self, c):
+        if c["kind"] == "dimexpr":
+            return self.oracle_dimexpr(c)
         P = regs.pools()
         proj = P.proj
         v = []
